@@ -10,16 +10,6 @@ open DRing (sumN)
 
 variable {K : Type} [CommRing K] [Algebra ℚ K]
 
-/-- closes a "reading" goal once dimension, type, signature and argument forms are concrete -/
-syntax "reads_tac" : tactic
-macro_rules
-  | `(tactic| reads_tac) => `(tactic|
-      (intro i j hij
-       simp only [InR] at hij
-       obtain ⟨hi, hj⟩ := hij
-       (try subst hi) <;> (try subst hj) <;> (try interval_cases i) <;> (try interval_cases j) <;>
-         (try simp only [den_mat_nth]) <;> rfl))
-
 /-! ### unary operators -/
 
 /-- one (dimension, logical, operator, argument type) combination for an argument of signature `c`:
@@ -37,7 +27,7 @@ macro_rules
          simp only [op1Class, Option.some.injEq] at hcn; subst hcn
          refine leaf1_sound S $d (by decide) _ _ _ _ rfl _ $c _ (ph 0 $c $d) (by rfl) (by rfl) (by rfl)
            (by rfl) (by rfl) (by rfl) (by rfl) (by rfl) (by rfl)
-           (by first | exact Or.inl rfl | exact Or.inr rfl) a _ $hVF $hsig hra ?_ IH t h
+           (by first | exact Or.inl rfl | exact Or.inr rfl) a _ $hVF $hsig hra ?_ IH
          simp only [$prep:term]
          reads_tac))
 
@@ -46,9 +36,10 @@ set_option maxRecDepth 100000 in
 theorem op1_step_sc (S : DRing K) (d : Nat) (hd : d = 1 ∨ d = 2 ∨ d = 3) (lg : Bool) (o : Op1)
     (τa τ : Ty) (hty : ty1 d o τa = some τ) (cn : String) (hcn : op1Class o = some cn) (a a' : E)
     (hLS : LS a' = true) (hτ : τa = .s ∨ d = 1) (hra : rank d a = rk τa)
-    (IH : ∀ i j, InR d τa i j → den S a' i j = denG S d lg a i j) (t : E)
-    (h : applyLeaf d ((if lg then "Logical" else "") ++ cn ++ "_" ++ toString d ++ "d") [a'] = .ok t) :
-    hasShape d τ t = true ∧ ∀ i j, InR d τ i j → den S t i j = denG S d lg (op1 o a) i j := by
+    (IH : ∀ i j, InR d τa i j → den S a' i j = denG S d lg a i j) :
+    (∃ t, applyLeaf d ((if lg then "Logical" else "") ++ cn ++ "_" ++ toString d ++ "d") [a'] = .ok t) ∧
+    ∀ t, applyLeaf d ((if lg then "Logical" else "") ++ cn ++ "_" ++ toString d ++ "d") [a'] = .ok t →
+      hasShape d τ t = true ∧ ∀ i j, InR d τ i j → den S t i j = denG S d lg (op1 o a) i j := by
   have hVF : VF a' = true := LS_VF a' hLS
   have hσ : sigmaOf d [a'] = [("@" ++ toString 0, a')] := by rw [sigmaOf_one, bindArg_LS_eq d 0 a' hLS]
   rcases sigOf_LS d a' hLS with hsig | ⟨hd1, hsig⟩
@@ -65,10 +56,10 @@ theorem op1_step_vec (S : DRing K) (d : Nat) (hd : d = 1 ∨ d = 2 ∨ d = 3) (l
     (τa τ : Ty) (hty : ty1 d o τa = some τ) (cn : String) (hcn : op1Class o = some cn) (a : E)
     (es : List E) (hes : LSList es = true) (hτ : τa = .v ∨ (τa = .m ∧ d = 1))
     (hra : rank d a = rk τa)
-    (IH : ∀ i j, InR d τa i j → den S (mat d 1 es) i j = denG S d lg a i j) (t : E)
-    (h : applyLeaf d ((if lg then "Logical" else "") ++ cn ++ "_" ++ toString d ++ "d") [mat d 1 es]
-      = .ok t) :
-    hasShape d τ t = true ∧ ∀ i j, InR d τ i j → den S t i j = denG S d lg (op1 o a) i j := by
+    (IH : ∀ i j, InR d τa i j → den S (mat d 1 es) i j = denG S d lg a i j) :
+    (∃ t, applyLeaf d ((if lg then "Logical" else "") ++ cn ++ "_" ++ toString d ++ "d") [mat d 1 es] = .ok t) ∧
+    ∀ t, applyLeaf d ((if lg then "Logical" else "") ++ cn ++ "_" ++ toString d ++ "d") [mat d 1 es] = .ok t →
+      hasShape d τ t = true ∧ ∀ i j, InR d τ i j → den S t i j = denG S d lg (op1 o a) i j := by
   have hVF : VF (mat d 1 es) = true := by simpa [VF] using hes
   rcases hd with rfl | rfl | rfl
   · cases lg <;> cases o <;> cases τa <;>
@@ -83,10 +74,10 @@ set_option maxRecDepth 100000 in
 theorem op1_step_mat (S : DRing K) (d : Nat) (hd : d = 2 ∨ d = 3) (lg : Bool) (o : Op1)
     (τa τ : Ty) (hty : ty1 d o τa = some τ) (cn : String) (hcn : op1Class o = some cn) (a : E)
     (es : List E) (hes : LSList es = true) (hτ : τa = .m) (hra : rank d a = rk τa)
-    (IH : ∀ i j, InR d τa i j → den S (mat d d es) i j = denG S d lg a i j) (t : E)
-    (h : applyLeaf d ((if lg then "Logical" else "") ++ cn ++ "_" ++ toString d ++ "d") [mat d d es]
-      = .ok t) :
-    hasShape d τ t = true ∧ ∀ i j, InR d τ i j → den S t i j = denG S d lg (op1 o a) i j := by
+    (IH : ∀ i j, InR d τa i j → den S (mat d d es) i j = denG S d lg a i j) :
+    (∃ t, applyLeaf d ((if lg then "Logical" else "") ++ cn ++ "_" ++ toString d ++ "d") [mat d d es] = .ok t) ∧
+    ∀ t, applyLeaf d ((if lg then "Logical" else "") ++ cn ++ "_" ++ toString d ++ "d") [mat d d es] = .ok t →
+      hasShape d τ t = true ∧ ∀ i j, InR d τ i j → den S t i j = denG S d lg (op1 o a) i j := by
   have hVF : VF (mat d d es) = true := by simpa [VF] using hes
   rcases hd with rfl | rfl
   · cases lg <;> cases o <;> cases τa <;>
